@@ -36,9 +36,14 @@ BOUNDS = {t: {"grids": [dict(shape=list(s), alphabet=[str(x) for x in al], dtype
 
 
 class RegionSpace(Space):
-    def __init__(self, shape, alphabet, dtype):
+    def __init__(self, shape, alphabet, dtype, margin=None, fill=0):
+        """margin = (top, bottom, left, right) cells of `fill` around every enumerated raster: the implementation clamps its
+        neighbour windows at the raster border, so the same pattern is also explored away from the border."""
         self.shape, self.alphabet, self.dtype = shape, alphabet, dtype
+        self.margin, self.fill = margin, fill
         self.name = "regions_%dx%d_%dletters_%s" % (shape[0], shape[1], len(alphabet), dtype)
+        if margin:
+            self.name += "_margin%d%d%d%d_fill%s" % (margin + (fill,))
         self.size = len(alphabet) ** (shape[0] * shape[1]) * 2
         self.weight = shape[0] * shape[1]
 
@@ -49,6 +54,11 @@ class RegionSpace(Space):
     def case(self, rank):
         conn = 4 if rank % 2 == 0 else 8
         a = grid(rank // 2, self.shape, self.alphabet, self.dtype)
+        if self.margin:
+            t, b, l, r = self.margin
+            big = np.full((a.shape[0] + t + b, a.shape[1] + l + r), self.fill, dtype=a.dtype)
+            big[t:t + a.shape[0], l:l + a.shape[1]] = a
+            a = big
         return a, conn
 
     def describe(self, rank):
@@ -57,12 +67,15 @@ class RegionSpace(Space):
 
     def run(self, lo, hi, out):
         h, w = self.shape
+        if self.margin:
+            h, w = h + self.margin[0] + self.margin[1], w + self.margin[2] + self.margin[3]
         ys = np.linspace(5.0, 1.0, h) if h > 1 else np.array([5.0])
         xs = np.linspace(-2.0, 2.5, w) if w > 1 else np.array([-2.0])
         attrs = {"res": (1.0, 2.0), "tag": "t"}
         for rank in range(lo, hi):
             a, conn = self.case(rank)
-            r = dataarray(a.copy(), ys, xs, dims=("lat", "lon"), attrs=attrs)
+            r = dataarray(a.copy(), ys, xs, dims=("lat", "lon"), attrs=attrs,
+                          extra_coords={"band": 3, "tile": "t07", "row_id": (("lat",), np.arange(h) * 10)})
             res = self.regions(r, neighborhood=conn)
             o = np.asarray(res.values)
             lab, k = components(a, conn)
@@ -78,6 +91,9 @@ class RegionSpace(Space):
             if res.shape != a.shape or res.dims != ("lat", "lon") or dict(res.attrs) != attrs \
                     or not np.array_equal(res["lat"].values, ys) or not np.array_equal(res["lon"].values, xs):
                 problems.append("shape/dims/coords/attrs differ from the input's")
+            elif set(map(str, res.coords)) != {"lat", "lon", "band", "tile", "row_id"} or int(res["band"]) != 3 \
+                    or str(res["tile"].values) != "t07" or not np.array_equal(res["row_id"].values, np.arange(h) * 10):
+                problems.append("scalar / auxiliary coordinates of the input are not kept: %s" % sorted(map(str, res.coords)))
             if not np.array_equal(r.values, a, equal_nan=True):
                 problems.append("input modified")
             out.case(outcome=(a, o), nontrivial=k >= 2, calls=1)
@@ -89,5 +105,15 @@ class RegionSpace(Space):
                 out.sample({"raster": a, "neighborhood": conn, "labels": o})
 
 
+EMBEDDED = {
+    "quick": [((3, 5), (0, 1), "f8", (1, 0, 0, 1), 0), ((3, 4), (0, 1), "f8", (1, 1, 1, 1), 0), ((2, 3), (1, 2, NAN), "f8", (1, 1, 1, 1), 1)],
+    "thorough": [((3, 5), (0, 1), "f8", (1, 0, 0, 1), 0), ((3, 5), (0, 1), "f8", (1, 1, 1, 1), 0), ((3, 4), (0, 1), "i8", (1, 1, 1, 1), 0),
+                 ((2, 4), (1, 2, NAN), "f8", (1, 1, 1, 1), 1), ((3, 6), (0, 1), "f8", (1, 0, 1, 1), 0)],
+}
+for _t in BOUNDS:
+    BOUNDS[_t]["embedded_with_margin"] = [dict(shape=list(s), alphabet=[str(x) for x in al], dtype=dt, margin_top_bottom_left_right=list(m),
+                                               fill=f) for s, al, dt, m, f in EMBEDDED[_t]]
+
+
 def build(tier):
-    return [RegionSpace(s, al, dt) for s, al, dt in GRIDS[tier]]
+    return [RegionSpace(s, al, dt) for s, al, dt in GRIDS[tier]] + [RegionSpace(s, al, dt, m, f) for s, al, dt, m, f in EMBEDDED[tier]]
